@@ -227,6 +227,7 @@ type Case struct {
 	Key        string         `json:"key"`                  // canonical form for distinctness
 	Tags       []string       `json:"tags,omitempty"`       // histogram keys
 	Extra      map[string]any `json:"extra,omitempty"`
+	Chk        string         `json:"chk,omitempty"`     // alternative runner for this case ("xheap": a heap-level program inside another engine's stream)
 }
 
 type Out struct {
